@@ -79,7 +79,10 @@ def insert(pop):
                 auth_ctx.set_ctx(_ctx(n['project']))
                 ts = T0 + datetime.timedelta(seconds=n['updatedAt'])
                 vals = {'id': dbid(n), 'name': dbid(n), 'workflow_name': 'wf', 'state': n['state'],
-                        'created_at': ts - datetime.timedelta(seconds=5), 'updated_at': ts}
+                        # created_at deliberately unrelated to updated_at (a query that used the
+                        # wrong column must not go unnoticed)
+                        'created_at': T0 - datetime.timedelta(seconds=20000 + (n['id'] * 7919) % 9973),
+                        'updated_at': ts}
                 par = dbid(by_id[n['parent']]) if n['parent'] is not None else None
                 if n['kind'] == 'wf':
                     vals['task_execution_id'] = par
